@@ -7,6 +7,7 @@ import (
 	"fmt"
 	"reflect"
 	"strconv"
+	"strings"
 
 	"cvssmc/internal/ev"
 	"cvssmc/internal/lib"
@@ -119,6 +120,18 @@ func init() {
 						}
 					}
 				}
+				// a code followed by filler of a length around every multiple of 256 up to 1024, and 2^16
+				for _, c := range en.Codes {
+					for _, fill := range []byte{0x00, 'A', ' '} {
+						for _, n := range []int{253, 254, 255, 256, 257, 509, 510, 511, 512, 513, 768, 1024, 65533, 65534, 65535, 65536} {
+							sdec := c.Code + strings.Repeat(string([]byte{fill}), n)
+							evals++
+							if got := en.Parse(sdec); got != en.Unknown {
+								r.Violate(ev.Violation{Kind: "non-code-accepted", Case: tableCase(en, "Get", fmt.Sprintf("%q followed by %d bytes 0x%02x", c.Code, n, fill)), Observed: fmt.Sprintf("%d (prints %q)", got, en.Str(got)), Expected: "the unknown/invalid value"})
+							}
+						}
+					}
+				}
 				distinct += int64(len(others))
 				// (3) every enumeration integer
 				defined := map[int]bool{}
@@ -166,6 +179,13 @@ func init() {
 			}
 		}
 		checkVersions(r, &evals, others)
+		var fe [][]string
+		for _, ver := range []int{3, 2} {
+			for _, en := range lib.Enums(ver) {
+				fe = append(fe, []string{"enum", fmt.Sprint(ver), en.Name})
+			}
+		}
+		firstUse(r, fe)
 		r.Add("evaluations", evals)
 		r.Add("distinct_nontrivial", distinct)
 		r.Sample(map[string]any{"metric": "v3 MPR", "checks": "Get(code) for X,N,L,H; Get(s) for 47,989 other strings; String/IsValid for integers -2..6; Value(MS,S,PR) for 3x2x3 contexts"})
@@ -263,6 +283,12 @@ func checkWeights(r *ev.Run, en *lib.Enum, evals *int64) {
 					w = bEn.Codes[j].W
 				}
 				call(i, en.Base+":"+bEn.Codes[j].Code, specW(w), bv)
+			}
+			if !c.ND {
+				// a defined Modified value carries its own weight whatever the base metric holds
+				for _, odd := range []int{bEn.Unknown, -1, bEn.MaxEnum + 1, 1 << 20} {
+					call(i, fmt.Sprintf("%s=%d (not a defined base value)", en.Base, odd), specW(c.W), bEn.Val(odd))
+				}
 			}
 		}
 	default:
